@@ -27,8 +27,9 @@ PLAN = {
             "thorough": [dict(tool="tsan", scale=0.5, part="threads"), dict(tool="miri", shards=16, san_cases=3, part="threads")]},
     # the unsafe code of the vector streams (reusable box, unreachable_unchecked) is reached by every
     # vector/adapter history: run the stream-end and wake workloads under ASan, and under Miri when thorough
-    "C08": {"quick": [dict(tool="asan", scale=0.5, part="all")],
-            "thorough": [dict(tool="asan", scale=0.3, part="all"), dict(tool="miri", shards=16, san_cases=12, part="all")]},
+    "C08": {"quick": [dict(tool="asan", scale=0.5, part="all"), dict(tool="tsan", scale=0.3, part="threads")],
+            "thorough": [dict(tool="asan", scale=0.3, part="all"), dict(tool="tsan", scale=0.5, part="threads"),
+                         dict(tool="miri", shards=16, san_cases=12, part="all")]},
     "C14": {"quick": [dict(tool="asan", scale=0.3, part="all")],
             "thorough": [dict(tool="asan", scale=0.2, part="all"), dict(tool="miri", shards=16, san_cases=12, part="all")]},
 }
